@@ -41,7 +41,8 @@ def preallocate (f : File) (n : Nat) : File := ⟨max f.len n, f.read⟩
 /-- `pwrite(p, off)`; Go's `File.WriteAt` issues no system call for an empty slice -/
 def writeAt (f : File) (off : Nat) (p : Bytes) : File :=
   if p.isEmpty then f else
-  ⟨max f.len (off + p.length), fun i => if off ≤ i ∧ i < off + p.length then p.getD (i - off) 0 else f.read i⟩
+  let a := p.toArray      -- O(1) reads in the compiled driver; `a.getD i 0 = p.getD i 0`
+  ⟨max f.len (off + p.length), fun i => if off ≤ i ∧ i < off + p.length then a.getD (i - off) 0 else f.read i⟩
 
 /-- the `n` bytes at `off` (only used when `off + n ≤ len`) -/
 def seg (f : File) (off n : Nat) : Bytes := (List.range n).map fun k => f.byte (off + k)
@@ -165,7 +166,7 @@ def verifyFilesOK (hash : Bytes → ID) (fs : List (Bool × Bool × Target × FN
     exactly the snapshot content -/
 def specVerify (t : Target) (node : FNode ID) (implOK : Bool) : Bool :=
   let same := match t with
-    | .regular f true _ _ _ => decide (f.toBytes = concat node.content)
+    | .regular f true _ _ _ => f.toBytes == concat node.content
     | _ => false
   implOK == same
 
@@ -229,9 +230,7 @@ def blobWrites : List (Blob ID) → Nat → Nat → List (Write ID)
   | b :: rest, i, off => ⟨i, off, b.id, b.data⟩ :: blobWrites rest (i + 1) (off + b.data.length)
 
 /-- `restic.ZeroPrefixLen` -/
-def zeroPrefixLen : Bytes → Nat
-  | [] => 0
-  | b :: rest => if b == 0 then zeroPrefixLen rest + 1 else 0
+def zeroPrefixLen (p : Bytes) : Nat := (p.takeWhile (· == 0)).length
 
 /-- `partialFile.WriteAt` -/
 def pwrite (sparse : Bool) (f : File) (w : Write ID) : File :=
@@ -295,7 +294,7 @@ def Outcome.finalBytes (o : Outcome) (t : Target) : Option Bytes :=
 def contractBoundary (ow : Overwrite) (t : Target) (node : FNode ID) : Bool :=
   match ow, t with
   | .ifChanged, .regular f true _ _ m =>
-    m == node.mtime && decide (f.len = node.size) && !decide (f.toBytes = concat node.content)
+    m == node.mtime && decide (f.len = node.size) && !(f.toBytes == concat node.content)
   | _, _ => false
 
 /-- executable statement of C19 for one file, evaluated on what is found at the path after a
